@@ -42,6 +42,24 @@ SHELLS = [
 
 # ---- amplification templates: one library call with a size parameter N
 AMPL = [
+    # pattern matching with nested quantifiers (polynomial / exponential backtracking), counting, utf8 scans, sorting
+    ("find-backtrack", 'local n = math.min(N, 3000) return (string.find(string.rep("a", n), "a*a*a*a*a*b")) or -1'),
+    ("match-backtrack-anchored", 'local n = math.min(N, 200000) return #(string.match(string.rep("a", n) .. "c", "^(a-)(a-)(a-)b") or "")'),
+    ("gmatch-count", 'local c = 0 for _ in string.gmatch(string.rep("ab ", math.min(N, 400000)), "%a+") do c = c + 1 end return c > 0 and 1 or 0'),
+    ("gsub-frontier", 'return select(2, string.gsub(string.rep("ab ", math.min(N, 300000)), "%f[%a]%a+", "%0")) > 0 and 1 or 0'),
+    ("balanced", 'return #(string.match(string.rep("(", math.min(N, 300000)) .. string.rep(")", math.min(N, 300000)), "%b()") or "")'),
+    ("utf8-len", 'return (utf8.len(string.rep("\\xc3\\xa9", math.min(N, 500000))) or -1) > 0 and 1 or 0'),
+    ("utf8-codes", 'local c = 0 for _ in utf8.codes(string.rep("\\xe2\\x82\\xac", math.min(N, 300000))) do c = c + 1 end return c > 0 and 1 or 0'),
+    ("utf8-char-many", 'local t = {} for i = 1, 200 do t[i] = 8364 end return #utf8.char(table.unpack(t)) * (N // N)'),
+    ("sort-big", 'local t = {} for i = 1, math.min(N, 200000) do t[i] = (i * 7919) % 10007 end table.sort(t) return t[1] <= t[#t] and 1 or 0'),
+    ("sort-cmp-big", 'local t = {} for i = 1, math.min(N, 60000) do t[i] = (i * 7919) % 10007 end table.sort(t, function(a, b) return a > b end) return t[1] >= t[#t] and 1 or 0'),
+    ("format-q-big", 'return #string.format("%q", string.rep("\\0\\n\"", math.min(N, 300000)))'),
+    ("lower-big", 'return #string.lower(string.rep("X", N))'),
+    ("len-loop", 'local s = string.rep("x", 100) local c = 0 for i = 1, math.min(N, 2000000) do c = c + #s end return c > 0 and 1 or 0'),
+    ("tostring-loop", 'local c = 0 for i = 1, math.min(N, 300000) do c = c + #tostring(i + 0.5) end return c > 0 and 1 or 0'),
+    ("tonumber-big", 'return math.type(tonumber(string.rep("9", math.min(N, 1000000)))) == "float" and 1 or 0'),
+    ("concat-numbers", 'local t = {} for i = 1, math.min(N, 300000) do t[i] = i end return #table.concat(t, ",")'),
+    ("pack-many", 'local t = {} for i = 1, 200 do t[i] = i end return #string.pack(string.rep("i4", 200), table.unpack(t)) * (N // N)'),
     ("rep", 'return #string.rep("x", N)'),
     ("rep-sep", 'return #string.rep("ab", N, ",")'),
     ("rep-upper", 'return #string.rep("x", N):upper()'),
